@@ -195,6 +195,9 @@ func (x *xtr) references(nodes ...ast.Node) map[string]bool {
 	walk = func(n ast.Node) bool {
 		switch t := n.(type) {
 		case *ast.SelectorExpr:
+			if selName(t) == "math.MaxFloat32" && x.env["maxFloat32"] != nil {
+				r["maxFloat32"] = true // the abstract parameter float32(math.MaxFloat32) stands for (spec.Prims)
+			}
 			for _, m := range x.methods { // the abstract method parameters a call may stand for
 				if m.ft != nil && strings.HasSuffix(m.lean, "_"+t.Sel.Name) {
 					r[m.lean] = true
